@@ -30,7 +30,8 @@ PROPERTY = "C19"
 LEVEL = "fault_enumeration"
 RULE = (
     "1-3 start/stop cycles of one ThreadedWriter; per cycle 1-3 producer threads x 0-30 messages each (occasionally one burst "
-    "of 10050-12000 messages against a blocked destination) (an order lock "
+    "of 10050-12000 messages against a blocked destination; in a third of the cases a second ThreadedWriter is alive all "
+    "the time and must receive nothing offered to the first) (an order lock "
     "around 'record offer; call writer' defines the offered order); a failure mask over the wrapped destination's calls; a "
     "gate on the wrapped destination with which the case decides how many messages have been written when stopService is "
     "called (0..all) and releases the rest in generated steps; optionally a pause right after the service is marked "
@@ -163,7 +164,14 @@ def check(case):
     gated = _GatedThreading()
     saved_threading = _lw.threading
     _lw.threading = gated
+    bystander = None
+    bystander_got = []
     try:
+        if case.get("bystander"):
+            # a second, independent writer (say an audit log) is alive all the time; nothing offered to the first one
+            # may reach its destination
+            bystander = ThreadedWriter(lambda m: bystander_got.append(m), reactor)
+            bystander.startService()
         for cyc in case["cycles"]:
             info["cycles"] += 1
             base = len(total_offered)
@@ -261,7 +269,25 @@ def check(case):
             require(len(dest.received) == count, "delivered-after-stop", "a message logged after stopService reached the wrapped destination")
             fails = [k for k in dest.mask if base <= k < len(dest.received) - 1]
             info["failures_followed"] += len(fails)
+        if bystander is not None:
+            db = bystander.stopService()
+            require(db.wait(0.7 if _core.FAILING else 5.0), "stop-never-completed", "the second writer's stopService did not complete")
+            stray = [m for m in bystander_got if "cycle" in m]
+            require(not stray, "delivered-to-another-writer", lambda: "messages offered to one ThreadedWriter reached the destination of another: %r" % (stray[:3],))
+            info["bystander"] = True
     finally:
+        if bystander is not None:
+            try:
+                if bystander.running:
+                    bystander.stopService()
+                bt = getattr(bystander, "_thread", None)
+                if bt is not None and bt.is_alive():
+                    for _ in range(3):
+                        bystander._queue.put(_lw._STOP)
+                    bt.join(1)
+                Logger._destinations.remove(bystander)
+            except Exception:
+                pass
         gated.gate.set()
         _lw.threading = saved_threading
         Service._verif_pause_after_stop = 0.0
@@ -309,6 +335,8 @@ def classify(case, info):
         labels.append("pause-after-marked-stopped")
     if info.get("reader_held"):
         labels.append("writer-thread-start-delayed")
+    if info.get("bystander"):
+        labels.append("second-writer-alive")
     nontrivial = bool(info["queued_at_stop"] or info["failures_followed"] or info["producers"] >= 2)
     return nontrivial, labels
 
@@ -323,7 +351,8 @@ def strategy():
         st.sampled_from([False, False, False, True]),
     )
     return st.builds(
-        lambda mask, cycles: {"mask": sorted(set(mask)), "cycles": cycles},
+        lambda by, mask, cycles: {"bystander": by, "mask": sorted(set(mask)), "cycles": cycles},
+        st.sampled_from([False, False, True]),
         st.lists(st.integers(0, 60), max_size=6),
         st.lists(cycle, min_size=1, max_size=3),
     )
@@ -375,11 +404,26 @@ def check_interleaved(case):
 
         def main():
             writer.startService()
+            box["first_reader"] = getattr(writer, "_thread", None)
             box["started"] = True
             if case["wait_for_producers"]:
                 s.wait_for(lambda: len(done_flags) == len(case["producers"]), ("wait-producers", 0, "main"))
             box["stop_tick"] = tick()
             box["d"] = writer.stopService()
+            if case.get("second_cycle"):
+                # a second start/stop cycle of the same writer, once the first one is over
+                reader = box.get("first_reader")
+                s.wait_for(
+                    lambda: len(done_flags) == len(case["producers"]) and (reader is None or getattr(reader, "_wid", None) is None or s.state.get(reader._wid) == "done"),
+                    ("wait-first-cycle", 0, "main"),
+                )
+                # the first cycle's writer thread has ended: the first stop completes now (on the reactor's pool thread)
+                if not box["d"].wait(3.0):
+                    return
+                writer.startService()
+                writer(("c2", 0))
+                writer(("c2", 1))
+                box["d2"] = writer.stopService()
 
         def producer(pid, count):
             def run():
@@ -392,7 +436,15 @@ def check_interleaved(case):
 
             return run
 
-        s.run([main] + [producer(p, c) for p, c in enumerate(case["producers"])])
+        stuck = None
+        try:
+            s.run([main] + [producer(p, c) for p, c in enumerate(case["producers"])])
+        except HarnessError as he:
+            # a thread the module started never ends (it waits for messages for ever): judge what was observed
+            # first, report the stuck schedule as a harness error only if nothing else is wrong
+            if "deadlock among scheduled workers" not in str(he):
+                raise
+            stuck = he
         for wid, e in s.errors.items():
             if isinstance(e, HarnessError):
                 raise e
@@ -410,7 +462,20 @@ def check_interleaved(case):
             require(seq == sorted(seq), "order", lambda: "producer %d's messages arrived as %r" % (pid, seq))
         require(fired, "stop-never-completed", "stopService's result did not complete")
         require(d.failure is None, "stop-failed", repr(d.failure))
-        idents = set(i for _, i in received)
+        if case.get("second_cycle"):
+            first = [(m, i) for m, i in received if m[0] != "c2"]
+            second = [(m, i) for m, i in received if m[0] == "c2"]
+            d2 = box.get("d2")
+            require(d2 is not None, "stop-never-completed", "the first stopService never completed, the second cycle could not start")
+            fired2 = d2.wait(3.0)
+            require([m for m, _ in second] == [("c2", 0), ("c2", 1)], "sequence", lambda: "second cycle: offered [('c2', 0), ('c2', 1)], destination was passed %r" % ([m for m, _ in second],))
+            require(fired2, "stop-never-completed", "the second cycle's stopService did not complete")
+            require(len(set(i for _, i in second)) <= 1, "several-writer-threads", "second cycle written by %d threads" % len(set(i for _, i in second)))
+            # messages offered while or after the first stop was requested may stay queued and be written by the
+            # second cycle's thread: the single-thread clause is judged on what was offered before the stop request
+            idents = set(i for m, i in first if m in must)
+        else:
+            idents = set(i for _, i in received)
         require(len(idents) <= 1, "several-writer-threads", "written by %d threads" % len(idents))
     finally:
         for name, value in saved.items():
@@ -422,7 +487,7 @@ def check_interleaved(case):
         except Exception:
             pass
     inside = s.switched_inside(("__call__", "_reader", "stopService", "startService"))
-    return {"switches": len(s.switches), "switch_inside": len(inside), "offered": len(offered_done), "before_stop": len(must)}
+    return {"switches": len(s.switches), "switch_inside": len(inside), "offered": len(offered_done), "before_stop": len(must), "stuck": stuck is not None}
 
 
 def classify_interleaved(case, info):
@@ -430,6 +495,11 @@ def classify_interleaved(case, info):
     if info["switch_inside"]:
         labels.append("preempted-inside-writer-code")
     labels.append("granularity:bytecode" if case.get("opcodes") else "granularity:line")
+    if case.get("second_cycle"):
+        labels.append("second-start/stop-cycle")
+    if info.get("stuck"):
+        # nothing observable was wrong, but a thread started by the writer never ended (it keeps waiting for messages)
+        labels.append("inconclusive:a-writer-thread-never-ended")
     return info["switch_inside"] >= 1 and info["offered"] >= 2, labels
 
 
@@ -437,7 +507,8 @@ def interleaved_strategy():
     from .. import sched
 
     return st.builds(
-        lambda opc, wait, mask, plan, producers: {"opcodes": opc, "wait_for_producers": wait, "mask": sorted(set(mask)), "plan": plan, "producers": producers},
+        lambda second, opc, wait, mask, plan, producers: {"second_cycle": second, "opcodes": opc, "wait_for_producers": wait, "mask": sorted(set(mask)), "plan": plan, "producers": producers},
+        st.sampled_from([False, False, True]),
         st.sampled_from([False, False, True]),
         st.booleans(),
         st.lists(st.integers(0, 6), max_size=2),
@@ -461,6 +532,15 @@ def interleaved_enum_runner(mod, facet, tier, seed, shard, nshards, stats):
                     cases.append({"wait_for_producers": wait, "mask": [], "plan": [[k, a], [10**6, b]], "producers": [2]})
                     if k % 2 == 0:
                         cases.append({"wait_for_producers": wait, "mask": [0], "plan": [[k, a], [4, b], [10**6, 3 - a - b]], "producers": [2]})
+    # the stop request racing a producer that is inside its offer: main starts the service (m steps), the producer
+    # runs k steps, main stops the service, the writer thread drains and ends, the producer resumes
+    for m in range(1, 15):
+        for k in range(0, 12):
+            cases.append({"wait_for_producers": False, "mask": [], "plan": [[m, 0], [k, 1], [10**6, 0], [10**6, 2], [10**6, 1]], "producers": [2]})
+            cases.append({"second_cycle": True, "wait_for_producers": False, "mask": [], "plan": [[m, 0], [k, 1], [10**6, 0], [10**6, 2], [10**6, 1]], "producers": [2]})
+    for m in range(0, 80, 3 if tier == "thorough" else 6):
+        for k in range(0, 45, 1 if tier == "thorough" else 2):
+            cases.append({"opcodes": True, "wait_for_producers": False, "mask": [], "plan": [[m, 0], [k, 1], [10**6, 0], [10**6, 2], [10**6, 1]], "producers": [2]})
     # bytecode granularity: two producers and the writer thread; producer 1 preempted at every instruction of its
     # first offer while producer 2 offers and the writer drains, then producer 1 resumes
     for k in range(0, 40):
